@@ -153,6 +153,8 @@ class WorkStealingScheduling:
                     self.collection, collection, other_node.gateway.id, node.gateway.id
                 )
                 self.log(msg)
+                # It can not take part: let it exit instead of idling.
+                node.shutdown()
                 return
         self.node2collection[node] = list(collection)
 
